@@ -47,7 +47,14 @@ MANIFEST = {
             "min_a) inside rods / slabs / cones 1000x longer than wide, with 28 point-location probes "
             "per step; evidence counts, per class, the rays whose first TRUE crossing (found "
             "independently by scan + bisection) is the grazed surface, and a zero count is reported "
-            "as coverage:grazing-first:<class>.",
+            "as coverage:grazing-first:<class>. The BIH used for point location: the model's "
+            "parent-pointer walk (bihNext/bihLoop) is proved to be the depth-first traversal "
+            "(bih_sound_order), to end within 3 iterations per node (bih_terminates) and to offer "
+            "every volume whose bounding box contains the point (bih_complete) on well-formed "
+            "trees; the decidable predicate bihWellFormed is evaluated by the Lean driver on the REAL "
+            "tree of every geometry of the run (op bihwf on the dumped OrangeParams data), the real "
+            "BIHTraverser's candidate lists are diffed bit-exactly against the model (op bihcand) and "
+            "checked against the dumped bounding boxes (no containing volume lost, none spurious).",
     "design_ref": "DESIGN.md §6 C03",
     "note": "Partial: the nested trace is proved for one find/cross step (first change of the nested "
             "location = distance and level of find_next_step); iterating it needs the re-initialised "
@@ -303,6 +310,40 @@ class PGeo:
                     best = (dist, si, self.surf_class(ty))
         return best
 
+    def coincident_levels(self, chain, gpos, fac=10.0):
+        """geometric test: at the global point, do the universes of two DIFFERENT nesting levels
+        of the chain each have a surface passing through it (first-order distance |f|/|grad f|
+        within fac x tolerance)?  E.g. a daughter's own sphere lying on the parent's boundary
+        sphere of that daughter.  Returns the list of (level, surface index) hits if >= 2 levels."""
+        p, hits = list(gpos), []
+        for k, (u, v) in enumerate(chain):
+            un = self.univ[u]
+            tolk = fac * self.tol * max(1.0, max(abs(c) for c in p))
+            if un["t"] == "rect":
+                for ax in range(3):
+                    if min(abs(p[ax] - g) for g in un["g"][ax]) < tolk:
+                        hits.append((k, -1))
+                        break
+                tr = un["tr"][3 * v:3 * v + 3]
+                tr = tr if any(tr) else []
+            else:
+                h = 1e-6 * max(1.0, max(abs(c) for c in p))
+                for si, (ty, dat) in enumerate(un["surfs"]):
+                    f = quadric(ty, dat, p)
+                    g2 = 0.0
+                    for ax in range(3):
+                        a = list(p); b = list(p)
+                        a[ax] += h; b[ax] -= h
+                        g2 += ((quadric(ty, dat, a) - quadric(ty, dat, b)) / (2 * h)) ** 2
+                    if g2 > 0 and abs(f) / math.sqrt(g2) < tolk:
+                        hits.append((k, si))
+                        break
+                if v not in un["dau"]:
+                    break
+                tr = un["dau"][v][1]
+            p = self.down(tr, p)
+        return hits if len({k for k, _ in hits}) >= 2 else []
+
     def is_curved(self, chain, sl, surf):
         un = self.univ[chain[sl][0]] if sl < len(chain) else None
         if un is None or un["t"] == "rect" or surf >= len(un["surfs"]):
@@ -361,6 +402,79 @@ class PGeo:
                 ui = du
             else:
                 return chain, near
+
+
+# --------------------------------------------------------------------------- runtime data (def line)
+def parse_def(line):
+    """per universe: None (rect array) or dict(nvol, bbox=[(lo, hi)], inf=[…]) read from the
+    `def …` line (the REAL BIH / bounding boxes built by OrangeParams, dumped by the harness)"""
+    w = line.split()
+    i = [1]
+
+    def tok():
+        i[0] += 1
+        return w[i[0] - 1]
+
+    def num():
+        return int(tok())
+
+    def opt():
+        t = tok()
+        return None if t == "-" else int(t)
+
+    def real():
+        return fl(tok())
+
+    assert tok() == "tol"
+    real(); real()
+    assert tok() == "nuniv"
+    out = []
+    for _ in range(num()):
+        assert tok() == "U"
+        kind = tok()
+        if kind == "simple":
+            assert tok() == "nsurf"
+            for _ in range(num()):
+                tok()
+                for _ in range(num()):
+                    tok()
+                for _ in range(num()):
+                    tok()
+            assert tok() == "nvol"
+            bbox = []
+            for _ in range(num()):
+                for _ in range(num()):
+                    tok()
+                for _ in range(num()):
+                    tok()
+                tok(); tok()
+                lo = [real() for _ in range(3)]
+                hi = [real() for _ in range(3)]
+                bbox.append((lo, hi))
+            assert tok() == "bg"
+            tok()
+            assert tok() == "bih"
+            inner = []
+            for _ in range(num()):
+                inner.append((opt(), num(), real(), opt(), real(), opt()))
+            leaves = []
+            for _ in range(num()):
+                par = opt()
+                leaves.append((par, [num() for _ in range(num())]))
+            inf = [num() for _ in range(num())]
+            out.append({"nvol": len(bbox), "bbox": bbox, "inf": inf, "inner": inner, "leaves": leaves})
+        else:
+            for _ in range(3):
+                tok()
+            for _ in range(3):
+                for _ in range(num()):
+                    tok()
+            for _ in range(4):
+                tok()
+            for _ in range(num()):
+                tok()
+            out.append(None)
+    return out
 
 
 # --------------------------------------------------------------------------- harness session
@@ -834,11 +948,46 @@ class GeoRun:
         self.pg = None
         self.aim = None      # (centre, radius) of a region most rays should pass through
         self.tangent_num = 1   # near-tangent set_dir on a boundary with probability tangent_num/4
+        self.bih_budget = 120  # direct BIH candidate probes per geometry
+        self.rt = None
+        self.n_bih = 0
         self.stats = {"tracks": 0, "ops": 0, "crossings": 0, "probes": 0, "near_skipped": 0,
                       "limited_checks": 0, "setdir_on_boundary": 0, "setdir_deeper": 0,
                       "reentrant": 0, "max_level": 0, "exits": 0, "init_fail": 0, "moves": 0}
         self.fail = []       # (key, what, info)
         self.overlap = None
+        self.shared_hits, self.shared_pos = [], None
+
+    LISTED_COINCIDENT = {"inputbuilder-universe-union-boundary":
+                         "cross-failed:inputbuilder-universe-union-boundary"}
+
+    def _fail(self, entry):
+        """record a failure; a track that has sat on surfaces of two nesting levels passing
+        through the same point (decided geometrically from its position) is a face of the
+        coincident-level-surface defect: attributed to the listed key of that geometry, or to
+        coincident-level-surfaces:<geo> for any other geometry"""
+        key, what, info = entry
+        if self.shared_hits and key.startswith(("no-boundary-found:", "cross-failed:",
+                                                "nav-location-mismatch:", "init-failed:",
+                                                "move-internal-desync:", "no-exit:")):
+            base = self.name.split(":")[-1].replace(".ops", "")
+            nk = None
+            for stem, listed in self.LISTED_COINCIDENT.items():
+                if stem in self.geo_line:
+                    nk = listed
+            nk = nk or ("coincident-level-surfaces:" + base)
+            what = (what + f" [track sat on coincident surfaces of different levels "
+                    f"(level, surface) = {self.shared_hits} at {self.shared_pos}; original key {key}]")
+            key = nk
+        self.fail.append((key, what, info))
+
+    def note_boundary(self, st):
+        if st is not None and st["sl"] != "-" and st["levels"] and not self.shared_hits:
+            hits = self.pg.coincident_levels(chain_of(st), st["levels"][0]["pos"])
+            if hits:
+                self.shared_hits, self.shared_pos = hits, st["levels"][0]["pos"]
+                self.stats["tracks_on_coincident_levels"] = \
+                    self.stats.get("tracks_on_coincident_levels", 0) + 1
 
     def start(self):
         self.sess = Session(self.exe)
@@ -851,6 +1000,11 @@ class GeoRun:
         self.def_line = d
         self.sess.ask(d)            # answered `ok` by both sides
         try:
+            self.rt = parse_def(d)
+        except (AssertionError, IndexError, ValueError):
+            self.rt = None
+        self.n_bih = 0
+        try:
             self.pg = PGeo(json.load(open(self.json_path)))
         except ValueError as e:
             return False, str(e)
@@ -859,6 +1013,40 @@ class GeoRun:
         return True, ""
 
     # ---- oracle helpers
+    def bih_probe(self, u, p):
+        """the candidates the REAL BIHTraverser offers at local point `p` of universe `u` must
+        contain every volume whose (real, dumped) bounding box contains `p` in its interior and
+        every inf_vol; and may contain only volumes whose box contains `p`"""
+        if self.rt is None or u >= len(self.rt) or self.rt[u] is None:
+            return
+        o = self.sess.ask("bihcand %d %s" % (u, " ".join(map(hx, p))))
+        self.n_bih += 1
+        self.stats["bih_probes"] = self.stats.get("bih_probes", 0) + 1
+        if not o.startswith("cand"):
+            return
+        got = [int(x) for x in o.split()[1:]]
+        r = self.rt[u]
+        for v, (lo, hi) in enumerate(r["bbox"]):
+            inside = all(lo[a] < p[a] < hi[a] for a in range(3))
+            within = all(lo[a] <= p[a] <= hi[a] for a in range(3))
+            if inside:
+                self.stats["bih_boxes_containing"] = self.stats.get("bih_boxes_containing", 0) + 1
+            if (inside or v in r["inf"]) and v not in got:
+                self._fail(("bih-lost-volume:" + self.name,
+                                  f"BIH traversal of universe {u} at local point {p} offers {got} "
+                                  f"but the bounding box {lo}..{hi} of volume {v} contains the point"
+                                  + (" (inf_vol)" if v in r["inf"] else ""),
+                                  {"geo": self.geo_line, "universe": u, "point": p, "candidates": got,
+                                   "lost_volume": v, "ops": [self.sess.lines[-1]]}))
+                return
+            if v in got and not within and v not in r["inf"]:
+                self._fail(("bih-spurious-candidate:" + self.name,
+                                  f"BIH traversal of universe {u} at {p} offers volume {v} whose "
+                                  f"bounding box {lo}..{hi} does not contain the point",
+                                  {"geo": self.geo_line, "universe": u, "point": p, "candidates": got,
+                                   "ops": [self.sess.lines[-1]]}))
+                return
+
     def probe(self, p, chain, what, script_from, key_hint=None):
         loc, near = self.pg.locate(p)
         self.stats["probes"] += 1
@@ -874,7 +1062,7 @@ class GeoRun:
             return True
         if loc != chain:
             key = key_hint or ("nav-location-mismatch:" + self.name)
-            self.fail.append((key, f"{what}: navigator reports volume chain {chain}, independent point "
+            self._fail((key, f"{what}: navigator reports volume chain {chain}, independent point "
                               f"location from the OrangeInput gives {loc} at {p}",
                               {"geo": self.geo_line, "point": p, "reported": chain, "located": loc,
                                "ops": self.sess.lines[script_from:]}))
@@ -884,6 +1072,7 @@ class GeoRun:
     def track(self, rng, pos, dr, max_cross, straight=False, dense=0, graze_key=None):
         s, st_ = self.sess, self.stats
         t0 = len(s.lines)
+        self.shared_hits, self.shared_pos = [], None
         o = s.ask("init %s %s" % (" ".join(map(hx, pos)), " ".join(map(hx, dr))))
         st = parse_state(o)
         st_["ops"] += 1
@@ -891,7 +1080,7 @@ class GeoRun:
             loc, near = self.pg.locate(pos)
             st_["init_fail"] += 1
             if st is not None and not near and loc is not None and not isinstance(loc, tuple):
-                self.fail.append(("init-failed:" + self.name,
+                self._fail(("init-failed:" + self.name,
                                   "initialisation failed at a point that the independent location "
                                   "places inside a volume away from every surface",
                                   {"geo": self.geo_line, "pos": pos, "located": loc,
@@ -901,6 +1090,9 @@ class GeoRun:
             return
         st_["tracks"] += 1
         self.probe(st["levels"][0]["pos"], chain_of(st), "after initialize", t0)
+        if self.n_bih < self.bih_budget:
+            for lv in st["levels"]:
+                self.bih_probe(lv["u"], lv["pos"])
         n_setdir = 0
         n_tangent = 0
         hint = None          # set after a set_dir on a boundary below the surface level
@@ -953,7 +1145,7 @@ class GeoRun:
                 dl, bl, dlhex = stl["prop"]
                 exp = (dhex, bnd) if d <= lim else (hx(lim), False)
                 if (dlhex, bl) != exp or (bl and (stl["nf"], stl["nl"]) != (st["nf"], st["nl"])):
-                    self.fail.append(("limited-vs-unlimited:" + self.name,
+                    self._fail(("limited-vs-unlimited:" + self.name,
                                       f"find_next_step({lim}) = ({dl},{bl}) but unlimited = ({d},{bnd})",
                                       {"geo": self.geo_line, "ops": s.lines[t0:]}))
             pos0, dir0 = st["levels"][0]["pos"], st["levels"][0]["dir"]
@@ -965,7 +1157,7 @@ class GeoRun:
                     if st["out"]:
                         st_["exits"] += 1
                         return
-                    self.fail.append(("no-boundary-found:" + self.name,
+                    self._fail(("no-boundary-found:" + self.name,
                                       "unlimited find_next_step found no boundary inside the world",
                                       {"geo": self.geo_line, "ops": s.lines[t0:]}))
                     return
@@ -1002,7 +1194,7 @@ class GeoRun:
                                 st_["coincident_next_surface"] = st_.get("coincident_next_surface", 0) + 1
                             elif abs(d3 - d * (1 - frac)) > 1e-6 * max(1.0, self.extent) \
                                     or st3["nf"] != st["nf"]:
-                                self.fail.append(("move-internal-desync:" + self.name,
+                                self._fail(("move-internal-desync:" + self.name,
                                                   "distance to boundary after move_internal + find "
                                                   f"is {d3}, expected {d * (1 - frac)}",
                                                   {"geo": self.geo_line, "ops": s.lines[t0:]}))
@@ -1036,8 +1228,9 @@ class GeoRun:
                 st = parse_state(o)
                 st_["ops"] += 1
                 post_cross = False
+                self.note_boundary(st)
                 if st is None:
-                    self.fail.append(("protocol:" + self.name, "move_to_boundary refused: " + o,
+                    self._fail(("protocol:" + self.name, "move_to_boundary refused: " + o,
                                       {"geo": self.geo_line, "ops": s.lines[t0:]}))
                     return
             # --- on a boundary: maybe change direction (the set_dir clause of the property)
@@ -1084,7 +1277,7 @@ class GeoRun:
                         want = (d_new >= 0) != (d_old >= 0)
                         got = st["b"] != b0
                         if want != got:
-                            self.fail.append((
+                            self._fail((
                                 "setdir-boundary-flag:" + ("curved" if self.pg.is_curved(
                                     chain_of(st), sl_, int(st["surf"])) else "plane")
                                 + (":deep" if sl_ >= 2 else ""),
@@ -1118,25 +1311,33 @@ class GeoRun:
             st = parse_state(o)
             st_["ops"] += 1
             if st is None:
-                self.fail.append(("protocol:" + self.name, "cross refused: " + o,
+                self._fail(("protocol:" + self.name, "cross refused: " + o,
                                   {"geo": self.geo_line, "ops": s.lines[t0:]}))
                 return
             crossings += 1
             st_["crossings"] += 1
             post_cross = True
+            self.note_boundary(st)
+            if self.n_bih < self.bih_budget and rng.chance(1, 4) and st["levels"]:
+                for lv in st["levels"]:
+                    self.bih_probe(lv["u"], lv["pos"])
             if st["fail"]:
-                self.fail.append(("cross-failed:" + self.name, "cross_boundary failed to find a volume",
+                self._fail(("cross-failed:" + self.name, "cross_boundary failed to find a volume",
                                   {"geo": self.geo_line, "ops": s.lines[t0:]}))
                 return
             if st["out"]:
                 st_["exits"] += 1
                 return
-        self.fail.append(("no-exit:" + self.name,
+        self._fail(("no-exit:" + self.name,
                           f"ray did not leave the world after {max_cross} crossings",
                           {"geo": self.geo_line, "ops": s.lines[t0:][:400]}))
 
     def run_tracks(self, rng, n, max_cross=400):
         E = self.extent
+        for _ in range(min(30, max(0, self.bih_budget - self.n_bih))):
+            c = self.aim[0] if (self.aim is not None and rng.chance(1, 2)) else [0.0, 0.0, 0.0]
+            sc = self.aim[1] if (self.aim is not None and c is self.aim[0]) else E
+            self.bih_probe(0, [c[i] + (rng.unit() * 2 - 1) * sc for i in range(3)])
         for _ in range(n):
             pos = [(rng.unit() * 2 - 1) * E * 0.9 for _ in range(3)]
             if rng.chance(1, 3):
@@ -1245,6 +1446,7 @@ def run(ctx):
     total = {}
     diverged, all_fail, skipped, crashed = [], [], [], []
     input_overlaps = {}
+    bih_wf = {}
     evaluations, distinct = 0, set()
     samples = []
     corpus_lines = []
@@ -1255,8 +1457,16 @@ def run(ctx):
         nonlocal evaluations
         if not ps["model_ok"]:
             return
-        _, om = vlib.run_lines([model], lines, timeout=3600)
+        _, om = vlib.run_lines([model], lines + ["bihwf"], timeout=3600)
         evaluations += len(lines)
+        wf = om[len(lines)] if len(om) > len(lines) else "<missing>"
+        bih_wf[name] = wf
+        if wf != "bihwf ok":
+            all_fail.append(("bih-ill-formed:" + name,
+                             "the BIH built by OrangeParams for this geometry fails the decidable "
+                             "well-formedness check BihWellFormed (universe:reason = " + wf + "): "
+                             "bih_complete / bih_terminates do not apply to it",
+                             {"geo": lines[0], "result": wf}))
         for i, l in enumerate(lines):
             b = om[i] if i < len(om) else "<missing>"
             if outs[i] != b:
@@ -1376,6 +1586,11 @@ def run(ctx):
         "documented call order (find before move/cross; cross only on a boundary) is enforced by both "
         "drivers; CELER_EXPECT preconditions are hypotheses",
         "involute surfaces, find_safety and the device code path are not modelled",
+        "BIH: bih_complete / bih_terminates / bih_sound_order hold for trees satisfying the decidable "
+        "bihWellFormed (links, covering planes, no stray node, every volume placed); that BIHBuilder "
+        "produces such trees is proved only at tree level for the planes (bihBuild_covered_partial) and "
+        "is otherwise a CHECKED hypothesis: evaluated on the real tree of every geometry of every run; "
+        "completeness is for points in the interior of a bounding box (the traverser compares with <)",
     ]
     ctx.coverage.update({
         "evaluations": evaluations, "distinct_nontrivial": len(distinct),
@@ -1386,6 +1601,9 @@ def run(ctx):
         "geometries": len(geos) - len(skipped), "skipped": skipped, "build_crashes": crashed[:3],
         "oracle": total, "oracle_failures": len(all_fail), "diverging": diverged[:3],
         "input_overlaps": input_overlaps,
+        "bih_wellformed": {"checked": len(bih_wf),
+                           "ok": sum(1 for v in bih_wf.values() if v == "bihwf ok"),
+                           "not_ok": {k: v for k, v in bih_wf.items() if v != "bihwf ok"}},
         "grazing_first_crossing": {c: {"first_is_grazed": a_, "rays": b_}
                                    for c, (a_, b_) in graze_cov.items()},
         "samples": samples, "corpus_ops": len(corpus_lines),
